@@ -156,9 +156,9 @@ class GPRCleaner(NodeTransformer):
         """
         self.generic_visit(node)
         if isinstance(node.op, BitAnd):
-            return BoolOp(And(), (node.left, node.right))
+            return BoolOp(And(), [node.left, node.right])
         elif isinstance(node.op, BitOr):
-            return BoolOp(Or(), (node.left, node.right))
+            return BoolOp(Or(), [node.left, node.right])
         else:
             raise TypeError(f"unsupported operation '{node.op.__class__.__name__}'")
 
